@@ -146,7 +146,13 @@ func (w *c18World) base(v int, sh *c18Shape) ([]byte, *x509.RevocationList) {
 func (w *c18World) delta(v int) ([]byte, *x509.RevocationList) {
 	return w.artefact(fmt.Sprintf("delta/v%d", v), func() pki.CRLSpec {
 		ind := int64(10 + 2*v)
-		return pki.CRLSpec{Issuer: w.root, Number: int64(11 + 2*v), NextUpdate: pki.Now.Add(24 * time.Hour), DeltaInd: &ind}
+		num := int64(11 + 2*v)
+		if v%2 == 1 {
+			// every other publication, the delta location lags behind: it still serves a delta numbered below the new base. What the
+			// fetcher owes its caller is the delta the location serves; whether it applies is decided where bundles are validated.
+			ind, num = int64(10+2*v-2), int64(10+2*v-1)
+		}
+		return pki.CRLSpec{Issuer: w.root, Number: num, NextUpdate: pki.Now.Add(24 * time.Hour), DeltaInd: &ind}
 	})
 }
 
